@@ -1,0 +1,1 @@
+//! Hooks for property C26 (empty unless needed).
